@@ -159,7 +159,7 @@ def copy_static_package(dst_parent):
     return dst
 
 
-def full(files, do_import=True, spelling="absolute"):
+def full(files, do_import=True, spelling="absolute", stale_output=False):
     """Stage a spec tree: returns (Staged or None, ok, error, stdout)."""
     root = scratch("vf-full-")
     xml_root = os.path.join(root, "xml")
@@ -168,7 +168,18 @@ def full(files, do_import=True, spelling="absolute"):
     pkg_parent = os.path.join(root, "pkg")
     os.makedirs(pkg_parent)
     pkg = copy_static_package(pkg_parent)
-    ok, err, out = run_generator(xml_root, os.path.join(pkg, "protocol", "_generated"), spelling)
+    gen_dir = os.path.join(pkg, "protocol", "_generated")
+    ok, err, out = run_generator(xml_root, gen_dir, spelling)
+    if ok and stale_output:
+        # the output directory is not empty: every file of the run above is replaced by something of the same
+        # size but other content (what an earlier version of the spec with equally long names leaves behind),
+        # then the generator runs again over it
+        for d, _dirs, fs in os.walk(gen_dir):
+            for f in fs:
+                p = os.path.join(d, f)
+                data = open(p, "rb").read()
+                open(p, "wb").write(data.swapcase())
+        ok, err, out = run_generator(xml_root, gen_dir, spelling)
     st = Staged(root, pkg_parent)
     if not ok:
         st.close()
